@@ -1,11 +1,16 @@
 """C16 - SRP linter applies its method, size and keyword thresholds exactly.
 
-Generator: projects of 1-3 files (py / ts,tsx / js,jsx / rs), each with 1-3 classes (py: nested classes and classes in
+Generator: projects of 1-3 files (py / ts,tsx / js,jsx / rs; a later file often repeats the previous file's language), each
+with 1-3 classes (py: nested classes and classes in
 functions; rs: struct + 0-3 impl blocks, grouped or interleaved with other structs' blocks) whose members are drawn
 from every kind the statement names (public, private, dunder, property, static/classmethod, constructor, async,
 associated fn); method counts are drawn around the effective max_methods of the file's language and field lines are
 padded so that the class's documented LOC lands on L-1 / L / L+1. Config: top-level max_methods/max_loc/check_keywords/
 keywords, per-language override sections, and --max-methods/--max-loc.
+Class names are NOT unique across the files of a run: top-level classes/structs of a later file may carry the names of an
+earlier file's classes (every module has its own `Config`), in the same or another language; the files are given as the
+directory or as explicit arguments in either order. A finite matrix (pair_cells) enumerates two files with a same-named
+class x language pair x criterion (methods / LOC) x position of either class relative to the limit x way of passing.
 Oracle (statement + docs/srp-linter.md): a class is reported (one srp.violation at its header line) iff m > M or
 loc > L or (check_keywords and a configured keyword is a substring of its name); the message lists exactly the
 exceeded criteria with the true numbers.
@@ -30,11 +35,14 @@ TECHNIQUE = ("Hypothesis-generated class/struct models rendered to py/ts/js/rs w
              "per-language overrides and CLI options")
 RULE = (
     "case = 1-3 source files (py, ts/tsx, js/jsx, rs) x 1-3 classes/structs each + one srp configuration (top-level, "
-    "per-language sections, CLI flags); members public/private/dunder/property/static/constructor and, for ts/js, quoted, numeric, "
+    "per-language sections, CLI flags); class names may repeat across the files of a run (same or different language), files "
+    "passed as directory / explicit arguments in either order; plus a 378-cell matrix of two files with a same-named class "
+    "(language pair x criterion x below/on/above for each class x way of passing); members public/private/dunder/property/static/constructor and, for ts/js, quoted, numeric, "
     "computed and generator method names; method count m drawn around the effective M, padding makes LOC hit L-1/L/L+1. "
     "Non-trivial: at least one class exactly on a limit (m==M or loc==L, that criterion not exceeded) and at least one "
     "class just above one (m==M+1 or loc==L+1). Distinct = hash of per-class (language, member kinds, criteria fired, "
-    "position relative to each limit, blank/comment lines present) + shape of the configuration (which keys at which level)."
+    "position relative to each limit, blank/comment lines present) + shape of the configuration (which keys at which level) "
+    "+ whether a class name is shared by files of the same / of different languages."
 )
 ASSUMPTIONS = [
     "LOC per docs = non-blank, non-comment lines from the class header to its last line (rs: struct item + its impl blocks); "
@@ -47,6 +55,9 @@ ASSUMPTIONS = [
     "CLI --max-methods/--max-loc are only combined with per-language overrides of the *other* key (docs do not say which wins)",
     "custom keyword lists contain every default keyword that occurs in a generated name (docs do not say replace vs extend)",
     "keyword containment is literal (case-sensitive substring), as the statement says 'contains'",
+    "a class is judged by the text of its own file only: classes/structs of the same name in other files of the run (Rust: "
+    "impl blocks for a same-named struct of another module file) do not belong to it - the statement's 'a Rust struct together "
+    "with its impl blocks' is read per file, as thai-lint lints file by file and has no crate/module resolution",
     "in-process CLI (click CliRunner) equals a fresh process; cross-checked on the first cases of every run",
 ]
 BUDGET_S = {"quick": 100, "thorough": 1200}
@@ -257,6 +268,8 @@ def cases(draw):
     files = []
     for i in range(nfiles):
         lang = draw(st.sampled_from(["py", "ts", "js", "rs"]))
+        if i and draw(st.integers(0, 2)) == 0:
+            lang = files[i - 1]["lang"]  # projects are mostly written in one language
         ext = draw(st.sampled_from({"py": [".py"], "ts": [".ts", ".ts", ".tsx"], "js": [".js", ".js", ".jsx"], "rs": [".rs"]}[lang]))
         eff = effective(config, lang)
         ncls = draw(st.sampled_from([1, 2, 2, 3]))
@@ -272,6 +285,15 @@ def cases(draw):
             if len(inner) >= 2 and draw(st.booleans()):
                 for n in inner:
                     n["name"] = f"Meta{fi}"
+    # class names are not unique across the files of a project (every module has its own `Config` / `Error` / `Entry`):
+    # top-level classes of a later file may carry the names of an earlier file's classes; each file is judged on its own
+    for fi in range(1, nfiles):
+        if draw(st.booleans()):
+            src = files[draw(st.integers(0, fi - 1))]["classes"]
+            for c, other in zip(files[fi]["classes"], src):
+                if draw(st.integers(0, 3)) != 0:
+                    c["name"] = other["name"]
+    names = [c["name"] for f in files for c in _all_classes(f["classes"])]
     # docs do not say whether a custom keyword list replaces or extends the defaults: keep every default keyword that
     # occurs in a name (in any letter case) inside the custom list
     kws = config["top"].get("keywords")
@@ -286,7 +308,7 @@ def cases(draw):
             for c in _all_classes(f["classes"]):
                 for d in DEFAULT_KEYWORDS:
                     c["name"] = re.sub(d, "Node", c["name"], flags=re.I)
-    return {"config": config, "files": files, "via": draw(st.sampled_from(["dir", "dir", "files"]))}
+    return {"config": config, "files": files, "via": draw(st.sampled_from(["dir", "dir", "files", "files-rev"]))}
 
 
 def _all_classes(cs):
@@ -321,7 +343,9 @@ def check(case) -> Case:
     for key, flag in (("max_methods", "--max-methods"), ("max_loc", "--max-loc")):
         if key in config.get("cli", {}):
             args += [flag, str(config["cli"][key])]
-    args += ["."] if case.get("via", "dir") == "dir" else [f["path"] for f in case["files"]]
+    via = case.get("via", "dir")  # the directory, or the files as explicit arguments in either order
+    paths = [f["path"] for f in case["files"]]
+    args += ["."] if via == "dir" else paths if via == "files" else paths[::-1]
     failures, labels = [], []
     with Project({f["path"]: text for f, text, _ in rendered}, config=_yaml_config(config)) as p:
         r = runner.run_cli(args, cwd=p.root)
@@ -398,6 +422,21 @@ def check(case) -> Case:
         for path, vs in observed.items():
             failures.append(Failure("anomaly|violation-in-unknown-file", {"path": path, "violations": vs[:3]}))
     labels.append("langs=" + str(len({f["lang"] for f in case["files"]})))
+    # class names that occur in more than one file of the run (same language: one analyzer sees both)
+    owners = {}
+    for f, _, infos in rendered:
+        for name in {i["name"] for i in infos}:
+            owners.setdefault(name, []).append(f["lang"])
+    shared = set()
+    for ls in owners.values():
+        if len(ls) > 1:
+            kind = "same-lang" if len(set(ls)) < len(ls) else "cross-lang"
+            shared.add(kind)
+            labels += [f"shared-name:{kind}:{lang}" for lang in sorted(set(ls))]
+    shared = sorted(shared)
+    labels += [f"shared-name:{kind}" for kind in shared]
+    if len(case["files"]) > 1:
+        labels.append("via=" + via)
     if config.get("langs"):
         labels.append("cfg:lang-override")
         present = {rc.LANG_KEY[f["lang"]] for f in case["files"]}
@@ -408,7 +447,7 @@ def check(case) -> Case:
     for k in config.get("top", {}):
         labels.append(f"cfg:top.{k}")
     shape_cfg = [sorted(config.get("top", {})), {k: sorted(v) for k, v in sorted(config.get("langs", {}).items())}, sorted(config.get("cli", {}))]
-    key = h([sorted(shape_classes, key=repr), shape_cfg])
+    key = h([sorted(shape_classes, key=repr), shape_cfg, shared])
     return Case(key=key, nontrivial=on_limit and just_above, labels=labels, failures=failures)
 
 
@@ -441,7 +480,49 @@ def _crit(part):
     return "methods" if " methods (max:" in part else "lines" if " lines (max:" in part else "kw" if "keyword" in part else "other"
 
 
+# ------------------------------------------------------------------------------------ same-named classes in two files
+
+
+PAIR_LANGS = [("py", "py"), ("ts", "ts"), ("js", "js"), ("rs", "rs"), ("py", "rs"), ("ts", "js"), ("rs", "ts")]
+PAIR_M, PAIR_L = 3, 12
+
+
+def _pair_class(lang, name, crit, rel, second):
+    """one class named `name`; `crit` ("m" | "loc") sits below / on / above its limit, the other criterion far below"""
+    d = {"below": -1, "on": 0, "above": 1}[rel]
+    m = PAIR_M + d if crit == "m" else 1
+    cls = {"name": name, "pad": 0, "members": [{"kind": "pub", "body": 0, "impl": i % 2} for i in range(m)]}
+    if lang in ("ts", "js"):
+        cls.update(export=second, form="decl")
+    if lang == "rs":
+        cls.update(export=True, generic=False, nimpl=2 if second else 1, unit=False)
+    if crit == "loc":
+        _fit(cls, lang, PAIR_L + d)
+    return cls
+
+
+def pair_cells():
+    """two files that each define a class/struct of the SAME name x language pair x criterion x position of either class
+    relative to the limit x how the files are passed (directory, explicit files in both orders)"""
+    ext = {"py": ".py", "ts": ".ts", "js": ".js", "rs": ".rs"}
+    cells = []
+    for (la, lb), crit, ra, rb, via in itertools.product(PAIR_LANGS, ("m", "loc"), ("below", "on", "above"), ("below", "on", "above"),
+                                                         ("dir", "files", "files-rev")):
+        files = []
+        for i, (lang, rel) in enumerate(((la, ra), (lb, rb))):
+            f = {"lang": lang, "path": ("client", "server")[i] + ext[lang], "noise": False,
+                 "classes": [_pair_class(lang, "Config", crit, rel, bool(i)), _pair_class(lang, f"Local{i}", crit, "on", False)]}
+            if lang == "rs":
+                f["order"] = "grouped"
+            files.append(f)
+        cells.append({"config": {"top": {"max_methods": PAIR_M, "max_loc": PAIR_L, "check_keywords": False}, "langs": {}, "cli": {}},
+                      "files": files, "via": via})
+    return cells
+
+
 def run(ctx):
+    cells = pair_cells()
+    ctx.each(ctx.my_cells(cells), check, exhaustive_label="same-name-pairs")
     ctx.explore(cases(), check, max_examples=ctx.n(250, 4000))
 
 
